@@ -303,6 +303,7 @@ func runCheck(args []string) int {
 	switch c.ID {
 	case "C11":
 		fn = checkC11
+		opts.pure = true
 	case "C14":
 		fn = checkC14
 		opts.pure = true
